@@ -29,6 +29,9 @@ func header(in string) bool {
 	if len(in) == 0 {
 		return false
 	}
+	// Markers are recognized regardless of case: Normalize keeps the original
+	// case of a word, Match lower-cases it, and both must drop the same tokens.
+	in = strings.ToLower(in)
 	p, e := in[:len(in)-1], in[len(in)-1]
 	switch e {
 	case '.', ':', ')':
